@@ -41,7 +41,7 @@ def switches(per_series_labelled):
     return within, boundary
 
 
-def result_consistency(res, K, beta, joint):
+def result_consistency(res, K, beta, joint, check_cost=True):
     """C06 oracle.  beta: float scalar or per-pair list over stacked points (single front end).
     Returns a list of (site, message, signature_extra)."""
     problems = []
@@ -88,6 +88,8 @@ def result_consistency(res, K, beta, joint):
             if not rel_close(cmed[k], want_med, 1e-12, 1e-12):
                 problems.append(("cluster-median", f"cluster {k} median {cmed[k]} != {want_med}", {"nk": nk}))
     # cost identity
+    if not check_cost:
+        return problems
     within, boundary = switches(labelled)
     if isinstance(beta, (list, tuple, np.ndarray)):
         b = [float(x) for x in beta]
